@@ -48,10 +48,11 @@ func oracle(c core.Case, out []string) []core.Finding {
 		}
 		fs = append(fs, core.Finding{Fingerprint: fp, Desc: desc})
 	}
-	subs := map[string]*expSub{}        // handle key -> latest subscription
-	registered := map[string]bool{}     // (client, query) pairs the server holds
-	var items []idxItem                 // tx index history
+	subs := map[string]*expSub{}    // handle key -> latest subscription
+	registered := map[string]bool{} // (client, query) pairs the server holds
+	var items []idxItem             // tx index history
 	blocks := map[int64]map[string][]string{}
+	viaService := map[string]bool{}
 	for i, op := range c.Ops {
 		if i >= len(out) {
 			break
@@ -146,6 +147,26 @@ func oracle(c core.Case, out []string) []core.Finding {
 			for idx, it := range decTxs(m["txs"]) {
 				items = append(items, idxItem{h, idx, it.Tx, indexedEvents(it.Events)})
 			}
+		case "svcblock":
+			// a committed block: its txs must be indexed whatever happens to the block's own events
+			if !strings.HasPrefix(o, "ok") {
+				add("indexerservice.stalled", fmt.Sprintf("op %d: the indexer service did not finish the block (%s)", i, o))
+				return fs
+			}
+			h, _ := strconv.ParseInt(m["height"], 10, 64)
+			for idx, it := range decTxs(m["txs"]) {
+				items = append(items, idxItem{h, idx, it.Tx, indexedEvents(it.Events)})
+				viaService[string(txHash(it.Tx))] = true
+			}
+			if o == "ok" {
+				if _, again := blocks[h]; again {
+					blocks[h] = nil
+				} else {
+					blocks[h] = indexedEvents(append(decTxEvents(m["begin"]), decTxEvents(m["end"])...))
+				}
+			} else if !reservedBlockKey(append(decTxEvents(m["begin"]), decTxEvents(m["end"])...)) {
+				add("indexerservice.block-rejected-without-cause", fmt.Sprintf("op %d: the block index refused block %d whose events do not use the reserved key", i, h))
+			}
 		case "get":
 			// every committed tx is retrievable under its own height and position
 			want := map[string]bool{}
@@ -153,6 +174,10 @@ func oracle(c core.Case, out []string) []core.Finding {
 				if string(txHash(it.tx)) == unhx(m["hash"]) {
 					want[it.show()] = true
 				}
+			}
+			if len(want) > 0 && o == "nil" && viaService[unhx(m["hash"])] {
+				add("indexerservice.committed-tx-not-indexed", fmt.Sprintf("op %d: a tx committed through the event bus is not in the tx index (Get returns nil), want %v", i, want))
+				continue
 			}
 			if len(want) == 0 {
 				continue
@@ -194,6 +219,21 @@ func oracle(c core.Case, out []string) []core.Finding {
 		}
 	}
 	return fs
+}
+
+// reservedBlockKey: the one documented cause for the block index to refuse a block
+func reservedBlockKey(evs []abci.Event) bool {
+	for _, e := range evs {
+		if e.Type == "" {
+			continue
+		}
+		for _, a := range e.Attributes {
+			if len(a.Key) > 0 && e.Type+"."+string(a.Key) == "block.height" {
+				return true
+			}
+		}
+	}
+	return false
 }
 
 type idxItem struct {
